@@ -825,7 +825,12 @@ def run_generated(ctx, fmt, idx, scale, tmp, via_load_score=False, ext=None):
         else:
             text = kern_writer.render(A, o)
         ext_ = ext or (".mei" if fmt == "mei" else rng.choice([".krn", ".kern"]))
-        path = os.path.join(tmp, f"doc{idx}_{j}{ext_}")
+        stem = f"doc{idx}_{j}"
+        if via_load_score:
+            # file names as people give them: sharps, question marks, semicolons, spaces, several dots, another extension inside
+            stem = rng.choice([stem, "Prelude in C# minor", "Nocturne_F#_major", "Who is Sylvia?", "Op.10 No.3; Tristesse", "take 2 (live)",
+                               "sonata.mid.backup", "score.xml", "Étude 3", "a&b=c"]) + f"-{j}"
+        path = os.path.join(tmp, f"{stem}{ext_}")
         with open(path, "w", encoding="utf-8") as f:
             f.write(text)
         den = N.denote(A)
